@@ -198,7 +198,7 @@ PROP = Prop(
           "the 32 curves of a case)."),
     clauses=[Clause("long_curves", check_long, kind="enum", cases=_long_cases, quick_shards=6, shards=12,
                     min_nontrivial=6, doc="curves of 65536-300000 points (grid, supplied thresholds, all scores)"),
-             Clause("roc", check, strategy=lambda tier: _cases(9 if tier == "quick" else 30), quick=150, thorough=8000, quick_shards=4, fuzz=3000,
+             Clause("roc", check, strategy=lambda tier: _cases(9 if tier == "quick" else 30), quick=500, thorough=8000, quick_shards=8, fuzz=3000,
                     min_nontrivial=100, doc="roc(): rates, order, support, counts, views")],
 )
 
